@@ -1381,7 +1381,7 @@ func checkCandidatePositionsUsed(p *Program, r *Report, rule string, a *verifyAn
 			used := false
 			res := a.core.Signature.Results()
 			for i := 0; i < res.Len(); i++ {
-				if !p.localNamed(res.At(i).Type(), "hashAndPos") {
+				if !p.localNamed(res.At(i).Type(), "hashAndPos") && !isPositionSlice(res.At(i).Type()) {
 					continue
 				}
 				if v := resultValue(sc.call, i); v != nil && len(nonDebugRefs(v)) > 0 {
@@ -1396,4 +1396,306 @@ func checkCandidatePositionsUsed(p *Program, r *Report, rule string, a *verifyAn
 		}
 	}
 	r.Floor(rule, "verifiers matching candidates against roots", n, 2)
+}
+
+// ---------------------------------------------------------------------------
+// RESTORE-SETS-CONFIG (R13e): a forest restored from a stream must carry the
+// configuration its constructor gives a fresh one (otherwise it answers the
+// same queries right after the restore but evolves differently under later
+// blocks). A restore function either starts from the constructor's value or
+// stores every field the constructor stores.
+
+func checkRestoreConfig(p *Program, r *Report, rule string) {
+	n := 0
+	for _, fn := range p.Funcs {
+		if fn.Parent() != nil || fn.Signature.Recv() != nil {
+			continue
+		}
+		if rd, _ := hasStreamParam(fn.Signature); !rd {
+			continue
+		}
+		// result: pointer to (or value of) a struct of the package
+		res := fn.Signature.Results()
+		var T *types.Named
+		ri := -1
+		for i := 0; i < res.Len(); i++ {
+			if nt := namedOf(res.At(i).Type()); nt != nil && nt.Obj().Pkg() == p.Types {
+				if _, ok := nt.Underlying().(*types.Struct); ok {
+					T, ri = nt, i
+				}
+			}
+		}
+		if T == nil {
+			continue
+		}
+		n++
+		name := p.FuncName(fn)
+		key := name + "/configuration"
+		// constructors of T: parameterless or plain-parameter package functions returning T / *T without a stream
+		ctorFields := map[string]bool{}
+		var ctors []*ssa.Function
+		for _, c := range p.Funcs {
+			if c.Parent() != nil || c.Signature.Recv() != nil || c == fn || c.Object() == nil || !c.Object().Exported() {
+				continue
+			}
+			if rd, wr := hasStreamParam(c.Signature); rd || wr {
+				continue
+			}
+			cr := c.Signature.Results()
+			if cr.Len() != 1 || namedOf(cr.At(0).Type()) != T || c.Signature.Params().Len() != 0 {
+				continue
+			}
+			ctors = append(ctors, c)
+			for _, b := range c.Blocks {
+				for _, in := range b.Instrs {
+					if st, ok := in.(*ssa.Store); ok {
+						if fa, ok := st.Addr.(*ssa.FieldAddr); ok && namedOf(fa.X.Type()) == T {
+							ctorFields[fieldName(fa.X.Type(), fa.Field)] = true
+						}
+					}
+				}
+			}
+		}
+		if len(ctors) == 0 {
+			r.Discharge(rule, key, p.Pos(fn.Pos()), "the restored type has no parameterless constructor to agree with", false)
+			continue
+		}
+		// the object returned on success
+		var obj *ssa.Alloc
+		for _, ret := range returnsOf(fn) {
+			if !isSuccessReturn(ret) {
+				continue
+			}
+			v := retOperands(ret)[ri]
+			switch x := v.(type) {
+			case *ssa.Alloc:
+				obj = x
+			case *ssa.UnOp:
+				obj, _ = x.X.(*ssa.Alloc)
+			}
+		}
+		if obj == nil {
+			r.Undecided(rule, key, p.Pos(fn.Pos()), "cannot identify the object the restore function returns")
+			continue
+		}
+		fromCtor := false
+		stored := map[string]bool{}
+		for _, ref := range *obj.Referrers() {
+			switch x := ref.(type) {
+			case *ssa.Store:
+				if x.Addr == obj {
+					if c, ok := x.Val.(*ssa.Call); ok {
+						for _, ct := range ctors {
+							if c.Common().StaticCallee() == ct {
+								fromCtor = true
+							}
+						}
+					}
+				}
+			case *ssa.FieldAddr:
+				for _, r2 := range *x.Referrers() {
+					if st, ok := r2.(*ssa.Store); ok && st.Addr == x {
+						stored[fieldName(x.X.Type(), x.Field)] = true
+					}
+				}
+			}
+		}
+		if fromCtor {
+			r.Discharge(rule, key, posOf(p, obj), "the restored object starts as the constructor's value", true)
+			continue
+		}
+		var missing []string
+		for f := range ctorFields {
+			if !stored[f] {
+				missing = append(missing, f)
+			}
+		}
+		sort.Strings(missing)
+		if len(missing) > 0 {
+			r.Violate(rule, key, posOf(p, obj), fmt.Sprintf("the restored object is built without the constructor and field(s) %v that the constructor sets are never set: the restored forest answers queries alike but evolves differently under later blocks", missing), "in "+name)
+		} else {
+			r.Discharge(rule, key, posOf(p, obj), "every field the constructor sets is also set by the restore function", true)
+		}
+	}
+	r.Floor(rule, "restore functions returning a forest", n, 1)
+}
+
+// ---------------------------------------------------------------------------
+// REJECT-KEEPS-INDEX (R10e): block application validates the list of hashes to
+// delete before it touches the leaf index. In the functions reachable from
+// Modify no removal from a leaf index (direct, or through a callee) may be
+// followed, inside the same function, by a return of a freshly created error:
+// a Modify rejected for one untracked hash would have dropped the others.
+
+func checkRejectKeepsIndex(p *Program, r *Report, rule string) {
+	isIndexDelete := func(x ssa.Instruction) bool {
+		if k, m, _ := storeCall(p, x); k == "index" && m == "Delete" {
+			return true
+		}
+		if c, ok := x.(*ssa.Call); ok && builtinName(c.Common()) == "delete" && len(c.Common().Args) == 2 {
+			if mt, ok := c.Common().Args[0].Type().Underlying().(*types.Map); ok && isByteArrayNamed(p, mt.Key()) {
+				return true
+			}
+		}
+		return false
+	}
+	// functions that may delete from an index
+	may := map[*ssa.Function]bool{}
+	for changed := true; changed; {
+		changed = false
+		for _, f := range p.Funcs {
+			if may[f] {
+				continue
+			}
+			for _, b := range f.Blocks {
+				for _, in := range b.Instrs {
+					hit := isIndexDelete(in)
+					if c, ok := in.(*ssa.Call); ok && !hit {
+						if sc := c.Common().StaticCallee(); sc != nil && may[sc] {
+							hit = true
+						}
+					}
+					if hit && !may[f] {
+						may[f] = true
+						changed = true
+					}
+				}
+			}
+		}
+	}
+	n := 0
+	for _, entry := range []string{"(*Pollard).Modify", "(*MapPollard).Modify"} {
+		e := p.Func(entry)
+		if e == nil {
+			r.MissingAnchor(rule, entry, "Modify not found")
+			continue
+		}
+		for _, f := range sortedFuncs(p, p.StaticReach(e)) {
+			if !may[f] || errorResultIndex(f.Signature) < 0 {
+				continue
+			}
+			n++
+			key := entry + "/" + p.FuncName(f) + "/validation-before-unindex"
+			var bad ssa.Instruction
+			var at ssa.Instruction
+			for _, b := range f.Blocks {
+				for _, in := range b.Instrs {
+					del := isIndexDelete(in)
+					if c, ok := in.(*ssa.Call); ok && !del {
+						if sc := c.Common().StaticCallee(); sc != nil && may[sc] {
+							del = true
+						}
+					}
+					if !del {
+						continue
+					}
+					freshFail := func(x ssa.Instruction) bool {
+						ret, ok := x.(*ssa.Return)
+						if !ok {
+							return false
+						}
+						ei := errorResultIndex(f.Signature)
+						ops := retOperands(ret)
+						if ei >= len(ops) {
+							return false
+						}
+						c, ok := ops[ei].(*ssa.Call)
+						if !ok {
+							return false
+						}
+						fo := calleeFunc(c.Common())
+						return fo != nil && fo.Pkg() != nil && (fo.Pkg().Path() == "fmt" || fo.Pkg().Path() == "errors")
+					}
+					if x, esc := escapes(in, func(ssa.Instruction) bool { return false }, freshFail); esc {
+						bad, at = in, x
+					}
+				}
+			}
+			if bad != nil {
+				r.Violate(rule, key, posOf(p, bad), fmt.Sprintf("a hash is removed from the leaf index and a validation failure can still be returned afterwards (%s): a rejected block would leave live leaves unfindable", posOf(p, at)), "in "+p.FuncName(f))
+			} else {
+				r.Discharge(rule, key, p.Pos(f.Pos()), "no freshly created error can be returned after the first removal from the leaf index", true)
+			}
+		}
+	}
+	r.Floor(rule, "functions under Modify that remove from a leaf index and can fail", n, 2)
+}
+
+// ---------------------------------------------------------------------------
+// INDEX-AT-NODE (R10f): the position recorded in the map forest's leaf index is
+// the position the node is stored at: for every index Put(h, X) outside
+// restore code and iteration callbacks the same function stores a node at the
+// same position expression.
+
+// siblingMovesToParent is the one reviewed identity of position arithmetic the
+// rule uses: when position d is deleted its sibling moves to d's parent, i.e.
+// calcNextPosition(sibling(d), d, rows) denotes the same position as
+// Parent(d, rows). x is the indexed position, k the key of the node-store Put.
+func siblingMovesToParent(p *Program, x, k ssa.Value) bool {
+	callOf := func(v ssa.Value, name string, nargs int) *ssa.Call {
+		if ex, ok := v.(*ssa.Extract); ok && ex.Index == 0 {
+			v = ex.Tuple
+		}
+		c, ok := v.(*ssa.Call)
+		if !ok || len(c.Common().Args) != nargs {
+			return nil
+		}
+		sc := c.Common().StaticCallee()
+		if sc == nil || !p.owns(sc) || p.FuncName(sc) != name {
+			return nil
+		}
+		return c
+	}
+	next := callOf(x, "calcNextPosition", 3)
+	par := callOf(k, "Parent", 2)
+	if next == nil || par == nil {
+		return false
+	}
+	sib := callOf(next.Common().Args[0], "sibling", 1)
+	if sib == nil {
+		return false
+	}
+	d := par.Common().Args[0]
+	return sameExpr(sib.Common().Args[0], d, 0) && sameExpr(next.Common().Args[1], d, 0) && sameExpr(next.Common().Args[2], par.Common().Args[1], 0)
+}
+
+func checkIndexAtNode(p *Program, r *Report, rule string) {
+	n := 0
+	for _, fn := range p.Funcs {
+		recv := fn.Signature.Recv()
+		if fn.Parent() != nil || recv == nil || !p.localNamed(recv.Type(), "MapPollard") {
+			continue
+		}
+		if rd, _ := hasStreamParam(fn.Signature); rd {
+			continue
+		}
+		ord := 0
+		for _, b := range fn.Blocks {
+			for _, in := range b.Instrs {
+				k, m, cc := storeCall(p, in)
+				if k != "index" || m != "Put" || len(cc.Args) < 2 {
+					continue
+				}
+				n++
+				ord++
+				key := fmt.Sprintf("%s/index-put#%d", p.FuncName(fn), ord)
+				x := cc.Args[1]
+				found := false
+				for _, b2 := range fn.Blocks {
+					for _, in2 := range b2.Instrs {
+						k2, m2, cc2 := storeCall(p, in2)
+						if k2 == "nodes" && m2 == "Put" && (sameExpr(cc2.Args[0], x, 0) || siblingMovesToParent(p, x, cc2.Args[0])) {
+							found = true
+						}
+					}
+				}
+				if found {
+					r.Discharge(rule, key, posOf(p, in), "the indexed position is the position a node is stored at in the same function", true)
+				} else {
+					r.Violate(rule, key, posOf(p, in), "the position written to the leaf index ("+exprName(x)+") is not the position any node is stored at in this function: look-ups would return a position that does not hold the leaf", "in "+p.FuncName(fn))
+				}
+			}
+		}
+	}
+	r.Floor(rule, "leaf-index position writes in the map forest", n, 6)
 }
